@@ -33,13 +33,13 @@ claim(
 TB = "Trusted: Lean kernel (+propext, Classical.choice, Quot.sound only, audited per theorem each run), Py/Basic.lean transcription of CPython primitives, the hand-written model tied by the correspondence harness (differential testing bounded by generator quality); NumPy kernels, dask scheduler/tokenize, floats and threads are assumptions. "
 
 claim("C01",
-  "Lean 4 refinement theorem for an n-D expression mini-language (13 constructors) + behavioural correspondence (model den/chunks vs real compute/.chunks) + program fuzz vs NumPy (optimize on/off, re-chunked variants)",
-  "C01_blockDen_correct: for every well-formed expression (src, map, zip, slice with any step sign, transpose, rechunk, concat, expand_dims, squeeze, broadcast_to, reduce, cumsum, map_blocks) of any depth/rank/shape/chunking, the value each block task computes is the restriction of the NumPy meaning to that block, and the assembled result equals it. Ops outside the mini-language (roll/stack/diff are encoded through it; reshape, take, sliding windows, tile, clip, where...) are covered by the program search only.",
+  "Lean 4 refinement theorems for an n-D expression language (13 constructors + Expr2 layer + reshape planner + contraction plan; 57 theorems) + behavioural correspondence (model den/chunks/blocks vs real compute/.chunks/graph keys: ex.*, ex2.*, rsh.*, ctr.*) + program fuzz vs NumPy (optimize on/off, re-chunked variants)",
+  "C01_blockDen_correct: for every well-formed expression (src, map, zip, slice with any step sign, transpose, rechunk, concat, expand_dims, squeeze, broadcast_to, reduce, cumsum, map_blocks) of any depth/rank/shape/chunking, the value each block task computes is the restriction of the NumPy meaning to that block, and the assembled result equals it. Extensions audited by the same check: derived forms roll/stack/diff/swapaxes/moveaxis/atleast_Nd (Props/C01Derived), second layer Expr2 = broadcasting elemwise, integer-list take, sliding-window reduction (Props/C01Ext), reshape planner (C01r_plan_index / C01r_compute_eq_reshape, Props/C01Reshape), matmul/tensordot/dot/einsum contraction plan with any split_every (C01c_block_correct, C01c_tree_any_fanin, Props/C01Contract). Ops outside the model (tile, clip, where=/out=, boolean masks inside programs ...) are covered by the program search only.",
   TB + "The theorem is about the model; the tie is the ex.* correspondence on generated programs (values and advertised chunks) plus per-block values in C03. Known findings: swv-layout-drift, take-through-broadcast, minmax-zero-size, slice-through-generic-blockwise.",
   "DESIGN.md §4 C01, §10")
 claim("C03",
   "Lean 4 theorems (block shape of blockDen = advertised chunks; chunks sum to shape) + correspondence of model blockDen with every executed block of the real graph + search executing every output key of real graphs",
-  "C03_block_shape / C03_chunks_sum for every well-formed expression of the mini-language; every output block of the real materialized graph (optimize on and off, programs biased to layout-changing rewrites, unknown sizes by block count) is executed and its shape/dtype compared with .chunks.",
+  "C03_block_shape / C03_chunks_sum for every well-formed expression of the mini-language, C03x_* for the Expr2 layer (broadcasting elemwise, take, sliding-window reduction chunks), C03r_* for reshape plans; every output block of the real materialized graph (optimize on and off, programs biased to layout-changing rewrites, unknown sizes by block count) is executed and its shape/dtype compared with .chunks.",
   TB + "The chunk bridge of _materialize and ChunksFreeze lowering are exercised by the search, not modelled.",
   "DESIGN.md §4 C03")
 claim("C12",
@@ -54,7 +54,7 @@ claim("C16",
   "DESIGN.md §4 C16")
 claim("C17",
   "Lean 4 proof over a model of common_blockdim, coarse_blockdim and the per-index logic of unify_chunks_expr (float cost comparisons as an oracle) + correspondence in every input order + end-to-end search from clean registries",
-  "8 theorems for all sizes: commonBlockdim sum/refines/splits, coarseBlockdim spec, sizeGuard_limit and C17_limit (every policy, every limit, every oracle value), refine only splits, common layout per index.",
+  "15 theorems for all sizes: commonBlockdim sum/refines/splits, coarseBlockdim spec, sizeGuard_limit and C17_limit (every policy, every limit, every oracle value), refine only splits, common layout per index; Props/C17Lower: after lowering an elemwise every operand has the unified layout (length-1 axes excepted), it is the model's layout, and under refine each operand is only split.",
   TB + "Unknown (nan) sizes not modelled; auto-policy cost arithmetic only through the relation its outcome must satisfy (checked each run); values unchanged is C14's theorem, checked end-to-end here.",
   "DESIGN.md §4 C17")
 claim("C18",
@@ -151,8 +151,8 @@ claim("C29",
   "DESIGN.md §4 C29")
 
 claim("C02",
-  "Lean 4 soundness theorems for 19 rewrite rules on the expression mini-language + congruence/fixpoint theorems (optimize sound for any rule sequence) + correspondence: every traced real rewrite (before/after objects exported) must be den-equal for the model (ru.equiv), instances of proved rules counted + real-code search (4 phase forms vs NumPy, fused vs lowered blocks, every fired rewrite computed on both sides, rule-directed chains, sliding-window kernel substitution)",
-  "C02_rule_sound_<rule> for slice-slice fusion, identity-slice removal, slice through elemwise/transpose/expand_dims/squeeze/reductions/concatenate, rechunk no-op / rechunk-rechunk / through elemwise, transpose, expand_dims / into a source; C02_step_sound, C02_any_sequence, C02_optimize_sound and C02_optimize_compute (with C01) for every well-formed expression. Rules outside the model (slice through broadcast_to / generic Blockwise, rechunk through concatenate, rechunk-slice, lowering, fusion) are covered by the search only.",
+  "Lean 4 soundness theorems for 22 rewrite rules on the expression mini-language, the block-id assignment of blockwise fusion and chunk unification at lowering (59 theorems) + congruence/fixpoint theorems (optimize sound for any rule sequence) + correspondence: every traced real rewrite (before/after objects exported) must be den-equal for the model (ru.equiv), instances of proved rules counted + real-code search (4 phase forms vs NumPy, fused vs lowered blocks, every fired rewrite computed on both sides, rule-directed chains, sliding-window kernel substitution)",
+  "C02_rule_sound_<rule> for slice-slice fusion, identity-slice removal, slice through elemwise/transpose/expand_dims/squeeze/reductions/concatenate, rechunk no-op / rechunk-rechunk / through elemwise, transpose, expand_dims / into a source; C02_step_sound, C02_any_sequence, C02_optimize_sound and C02_optimize_compute (with C01) for every well-formed expression. Extensions audited by the same check: slice through broadcast_to, rechunk through concatenate, rechunk-slice composition (Props/C02Ext); fusion: under WF, Ordered, Accepted (model of _remove_conflicting_exprs) and ValidBlock every member gets the block id reached along every path and the fused task reads exactly what the unfused graph reads (C02_fuse_block_ids, Props/C02Fusion); chunk unification at lowering is well-formed, denotes the pointwise op and computes it (C02l_*, Props/C02Lower). The generic Blockwise._accept_slice and lowering of other node kinds are covered by the search only; block-layout-sensitive consumers over pushdown targets are searched by harness/props_ext/c02_grid.py.",
   TB + "The tie is ru.equiv on exported real rewrites; coverage and measure are evidence only. Known findings: swv-layout-drift, take-through-broadcast, slice-through-generic-blockwise.",
   "DESIGN.md §4 C02")
 claim("C08",
